@@ -1,6 +1,6 @@
 (* Props/C02.v — property C02: rolling drivers call back once per position with exactly the right
    window.  Only theorem statements, closed by `exact`; `Check` pins; `Print Assumptions`.       *)
-From Tevec Require Import Base.Prelude Model.Driver Proofs.Driver.
+From Tevec Require Import Base.Prelude Model.Driver Proofs.Driver Model.DriverDispatch Proofs.Audit02.
 
 (* (1) once per position, in increasing order, carrying x_i — for EVERY stateful callback:
        both bodies perform the call list  mapi (fun i x_i => (removed_i, x_i)) xs. *)
@@ -276,6 +276,328 @@ Example C02_example_two_series :
   /\ rolling_custom_default 0 (fun (s : nat) (l : list nat) => (s, l)) 0 (@nil nat) = Panicked Underflow.
 Proof. vm_compute. repeat split. Qed.
 
+(* ======================================================================================================
+   (YA) AUDIT.  notes/C02.md has the clause-by-clause matrix; the theorems below close what it found:
+   the number / order / arguments of the invocations as an observation of an arbitrary callback, the
+   window as a set of positions, the corner cases of the statement (window = 1, len = 0, window > len) for
+   every entry point and both bodies, the exact place where the two bodies differ, hypotheses dropped from
+   the agreement theorems, EVERY backend x both output paths (Model/DriverDispatch.v), the lazy iterator.  *)
+
+(* (A1) any callback, wrapped so that it also records what it receives: the k-th stored result was computed
+        after exactly the first k+1 arguments, in order - and the results are those of the bare callback.
+        With the closed forms `Done (run f s0 <call list>)` above (which hold for every f, hence for
+        `logged f`) this is "exactly once per position, in increasing order, with these arguments". *)
+Theorem C02_call_trace :
+  forall (St X O : Type) (f : St -> X -> St * O) (args : list X) (s0 : St) (i : nat) (a : X),
+    nth_error args i = Some a ->
+    nth_error (run (logged f) (s0, []) args) i
+    = Some (snd (f (state_after f s0 (firstn i args)) a), firstn (S i) args).
+Proof. exact @logged_nth. Qed.
+
+Theorem C02_call_trace_results_unchanged :
+  forall (St X O : Type) (f : St -> X -> St * O) (args : list X) (s0 : St) (l : list X),
+    map fst (run (logged f) (s0, l) args) = run f s0 args.
+Proof. exact @logged_results. Qed.
+
+(* (A2) "exactly the sub-sequence max(0,i-w+1)..=i": length and every element of the window, nothing beyond *)
+Theorem C02_slice_positions :
+  forall (X : Type) (w i : nat) (xs : list X),
+    1 <= w -> i < length xs ->
+    length (win w i xs) = Nat.min w (S i) /\
+    (forall j, j < Nat.min w (S i) -> nth_error (win w i xs) j = nth_error xs (S i - Nat.min w (S i) + j)) /\
+    (forall j, Nat.min w (S i) <= j -> nth_error (win w i xs) j = None).
+Proof. exact @win_exact. Qed.
+
+(* (A3) two series: the removed pair is the pair of the removed elements of each series *)
+Theorem C02_removed_pair :
+  forall (T T2 : Type) (w : nat) (xs : list T) (ys : list T2) (i : nat),
+    removed w (combine xs ys) i =
+    match removed w xs i, removed w ys i with Some a, Some b => Some (a, b) | _, _ => None end.
+Proof. exact @removed_combine. Qed.
+
+(* (A4) where exactly the two bodies report something different: window longer than the series, final position *)
+Theorem C02_bodies_differ_exactly_at :
+  forall (T : Type) (w : nat) (xs : list T) (i : nat),
+    1 <= w -> i < length xs ->
+    (removed_to w xs i <> removed w xs i <-> length xs < w /\ S i = length xs).
+Proof. exact @removed_bodies_differ_iff. Qed.
+
+(* ... and a callback that returns what it was told to remove does tell them apart there: the clause
+   "unspecified" of the statement is needed *)
+Theorem C02_bodies_differ_observably :
+  forall (T : Type) (w : nat) (xs : list T),
+    length xs < w -> xs <> [] ->
+    rolling_apply_to w (fun (s : unit) (a : option T * T) => (s, fst a)) tt xs
+    <> rolling_apply_default w (fun (s : unit) (a : option T * T) => (s, fst a)) tt xs.
+Proof. exact @rolling_apply_bodies_differ_longer. Qed.
+
+(* (A5) for EVERY callback the two bodies are equal as soon as the window fits (or the series is empty) *)
+Theorem C02_bodies_equal_when_window_fits :
+  forall (T St O : Type) (w : nat) (f : St -> option T * T -> St * O) (g : St -> option nat * nat * T -> St * O)
+         (s0 : St) (xs : list T),
+    w <= length xs \/ xs = [] ->
+    rolling_apply_to w f s0 xs = rolling_apply_default w f s0 xs /\
+    rolling_apply_idx_to w g s0 xs = rolling_apply_idx_default w g s0 xs.
+Proof.
+  intros; split; [apply rolling_apply_bodies_equal_fit | apply rolling_apply_idx_bodies_equal_fit]; assumption.
+Qed.
+
+Theorem C02_slice_bodies_equal :
+  forall (T St O : Type) (w : nat) (f : St -> list T -> St * O) (s0 : St) (xs : list T),
+    1 <= w -> rolling_custom_to w f s0 xs = rolling_custom_default w f s0 xs.
+Proof. intros; apply rolling_custom_bodies_equal; assumption. Qed.
+
+(* (A6) hypothesis dropped: index form, add-emit-remove callbacks, EVERY window (was: w <= len) *)
+Theorem C02_idx_bodies_agree_every_window :
+  forall (T St O : Type) (pre : St -> nat -> T -> St) (emit : St -> O) (post : St -> option nat -> St)
+         (w : nat) (s0 : St) (xs : list T),
+    rolling_apply_idx_to w (aer_idx pre emit post) s0 xs
+    = rolling_apply_idx_default w (aer_idx pre emit post) s0 xs.
+Proof. exact @rolling_apply_idx_bodies_agree_every_window. Qed.
+
+Theorem C02_two_series_idx_bodies_agree_every_window :
+  forall (T1 T2 St O : Type) (pre : St -> nat -> T1 * T2 -> St) (emit : St -> O) (post : St -> option nat -> St)
+         (w : nat) (s0 : St) (xs : list T1) (ys : list T2),
+    length xs <= length ys ->
+    rolling2_apply_idx_to w (aer_idx pre emit post) s0 xs ys
+    = rolling2_apply_idx_default w (aer_idx pre emit post) s0 xs ys.
+Proof. intros; apply rolling2_apply_idx_bodies_agree_every_window; assumption. Qed.
+
+(* (A7) window = 1: the element at i is also the window start, the slice is the singleton *)
+Theorem C02_window_one :
+  forall (T St O : Type) (f : St -> option T * T -> St * O) (g : St -> option nat * nat * T -> St * O)
+         (h : St -> list T -> St * O) (s0 : St) (xs : list T),
+    (rolling_apply_default 1 f s0 xs = Done (run f s0 (map (fun v => (Some v, v)) xs)) /\
+     rolling_apply_to 1 f s0 xs = Done (run f s0 (map (fun v => (Some v, v)) xs))) /\
+    (rolling_apply_idx_default 1 g s0 xs = Done (run g s0 (mapi (fun i v => (Some i, i, v)) xs)) /\
+     rolling_apply_idx_to 1 g s0 xs = Done (run g s0 (mapi (fun i v => (Some i, i, v)) xs))) /\
+    (rolling_custom_default 1 h s0 xs = Done (run h s0 (map (fun v => [v]) xs)) /\
+     rolling_custom_to 1 h s0 xs = Done (run h s0 (map (fun v => [v]) xs))).
+Proof.
+  intros. exact (conj (rolling_apply_window1 f s0 xs) (conj (rolling_apply_idx_window1 g s0 xs) (rolling_custom_window1 h s0 xs))).
+Qed.
+
+(* (A8) len = 0: no call, empty output, for every window - except `window - 1` of the returned slice form *)
+Theorem C02_empty_series :
+  forall (T St O : Type) (w : nat) (f : St -> option T * T -> St * O) (g : St -> option nat * nat * T -> St * O)
+         (h : St -> list T -> St * O) (s0 : St),
+    rolling_apply_default w f s0 [] = Done [] /\ rolling_apply_to w f s0 [] = Done [] /\
+    rolling_apply_idx_default w g s0 [] = Done [] /\ rolling_apply_idx_to w g s0 [] = Done [] /\
+    rolling_custom_to w h s0 [] = Done [] /\
+    rolling_custom_default w h s0 [] = (if w =? 0 then Panicked Underflow else Done []).
+Proof. exact @rolling_empty. Qed.
+
+(* (A9) window > len: the returned body never reports a removed element / start index; the two-phase body
+        reports element 0 / index 0 at the final position only; the slices are the prefixes *)
+Theorem C02_window_longer_remove_form :
+  forall (T St O : Type) (w : nat) (f : St -> option T * T -> St * O) (s0 : St) (xs : list T),
+    length xs < w ->
+    rolling_apply_default w f s0 xs = Done (run f s0 (map (fun v => (None, v)) xs)) /\
+    rolling_apply_to w f s0 xs
+    = Done (run f s0 (mapi (fun i v => (if S i =? length xs then nth_error xs 0 else None, v)) xs)).
+Proof. intros; apply rolling_apply_longer; assumption. Qed.
+
+Theorem C02_window_longer_index_form :
+  forall (T St O : Type) (w : nat) (f : St -> option nat * nat * T -> St * O) (s0 : St) (xs : list T),
+    length xs < w ->
+    rolling_apply_idx_default w f s0 xs = Done (run f s0 (mapi (fun i v => (None, i, v)) xs)) /\
+    rolling_apply_idx_to w f s0 xs
+    = Done (run f s0 (mapi (fun i v => (if S i =? length xs then Some 0 else None, i, v)) xs)).
+Proof. intros; apply rolling_apply_idx_longer; assumption. Qed.
+
+Theorem C02_window_longer_slice_form :
+  forall (T St O : Type) (w : nat) (f : St -> list T -> St * O) (s0 : St) (xs : list T),
+    1 <= w -> length xs <= w ->
+    rolling_custom_default w f s0 xs = Done (run f s0 (map (fun i => firstn (S i) xs) (seq 0 (length xs)))) /\
+    rolling_custom_to w f s0 xs = Done (run f s0 (map (fun i => firstn (S i) xs) (seq 0 (length xs)))).
+Proof. intros; apply rolling_custom_longer; assumption. Qed.
+
+(* (A10) EVERY backend x both output paths (Model/DriverDispatch.v: Vec, [T], [T; N], the three ndarray types
+         override with the index body on both paths; VecDeque, the option view, Polars keep the trait default;
+         Arc<V> forwards to V).  Closed forms for every window, 0 included. *)
+Theorem C02_backend_remove_form :
+  forall (T St O : Type) (b : backend) (out : bool) (w : nat) (f : St -> option T * T -> St * O) (s0 : St) (xs : list T),
+    rolling_apply_on b out w f s0 xs =
+    if bad_window w xs then Panicked AssertFail
+    else Done (run f s0 (mapi (fun i v => (if fast b || out then removed_to w xs i else removed w xs i, v)) xs)).
+Proof. exact @rolling_apply_on_total. Qed.
+
+Theorem C02_backend_index_form :
+  forall (T St O : Type) (b : backend) (out : bool) (w : nat) (f : St -> option nat * nat * T -> St * O) (s0 : St)
+         (xs : list T),
+    rolling_apply_idx_on b out w f s0 xs =
+    if bad_window w xs then Panicked AssertFail
+    else Done (run f s0 (mapi (fun i v => (start_of (if fast b || out then Nat.min w (length xs) else w) i, i, v)) xs)).
+Proof. exact @rolling_apply_idx_on_total. Qed.
+
+Theorem C02_backend_slice_form :
+  forall (T St O : Type) (b : backend) (out : bool) (w : nat) (f : St -> list T -> St * O) (s0 : St) (xs : list T),
+    rolling_custom_on b out w f s0 xs =
+    if fast b then (if bad_window w xs then Panicked AssertFail else Done (run f s0 (windows w xs)))
+    else (if w =? 0 then Panicked Underflow else Done (run f s0 (windows w xs))).
+Proof. exact @rolling_custom_on_total. Qed.
+
+Theorem C02_backend_two_series_remove_form :
+  forall (T1 T2 St O : Type) (b : backend) (out : bool) (w : nat)
+         (f : St -> option (T1 * T2) * (T1 * T2) -> St * O) (s0 : St) (xs : list T1) (ys : list T2),
+    rolling2_apply_on b out w f s0 xs ys =
+    if fast b || out then
+      (if length ys <? length xs then Panicked AssertFail
+       else if bad_window w xs then Panicked AssertFail
+       else Done (run f s0 (mapi (fun i v => (removed_to w (combine xs ys) i, v)) (combine xs ys))))
+    else
+      (if bad_window w xs then Panicked AssertFail
+       else Done (run f s0 (mapi (fun i v => (removed w (combine xs ys) i, v)) (combine xs ys)))).
+Proof. exact @rolling2_apply_on_total. Qed.
+
+Theorem C02_backend_two_series_index_form :
+  forall (T1 T2 St O : Type) (b : backend) (out : bool) (w : nat)
+         (f : St -> option nat * nat * (T1 * T2) -> St * O) (s0 : St) (xs : list T1) (ys : list T2),
+    rolling2_apply_idx_on b out w f s0 xs ys =
+    if fast b || out then
+      (if length ys <? length xs then Panicked AssertFail
+       else if bad_window w xs then Panicked AssertFail
+       else Done (run f s0 (mapi (fun i v => (start_of (Nat.min w (length (combine xs ys))) i, i, v)) (combine xs ys))))
+    else
+      (if bad_window w xs then Panicked AssertFail
+       else Done (run f s0 (mapi (fun i v => (start_of w i, i, v)) (combine xs ys)))).
+Proof. exact @rolling2_apply_idx_on_total. Qed.
+
+Theorem C02_backend_two_series_slice_form :
+  forall (T1 T2 St O : Type) (b : backend) (out : bool) (w : nat) (f : St -> list T1 * list T2 -> St * O) (s0 : St)
+         (xs : list T1) (ys : list T2),
+    rolling2_custom_on b out w f s0 xs ys =
+    if length ys <? length xs then Panicked AssertFail
+    else if w =? 0 then Panicked Underflow
+    else Done (run f s0 (map (fun i => (win w i xs, win w i ys)) (seq 0 (length xs)))).
+Proof. exact @rolling2_custom_on_total. Qed.
+
+(* Arc<V> is V; on the overriding backends the output path does not matter *)
+Theorem C02_backend_arc_and_fast_path :
+  forall (T St O : Type) (b : backend) (out : bool) (w : nat) (f : St -> option T * T -> St * O)
+         (g : St -> option nat * nat * T -> St * O) (h : St -> list T -> St * O) (s0 : St) (xs : list T),
+    (rolling_apply_on (BArc b) out w f s0 xs = rolling_apply_on b out w f s0 xs /\
+     rolling_apply_idx_on (BArc b) out w g s0 xs = rolling_apply_idx_on b out w g s0 xs /\
+     rolling_custom_on (BArc b) out w h s0 xs = rolling_custom_on b out w h s0 xs) /\
+    (fast b = true ->
+     rolling_apply_on b false w f s0 xs = rolling_apply_on b true w f s0 xs /\
+     rolling_apply_idx_on b false w g s0 xs = rolling_apply_idx_on b true w g s0 xs /\
+     rolling_custom_on b false w h s0 xs = rolling_custom_on b true w h s0 xs).
+Proof.
+  intros. split; [apply rolling_on_arc | intros Hb; apply rolling_on_fast_path_irrelevant; exact Hb].
+Qed.
+
+(* what must NOT depend on the backend or the path: every callback when the window fits; add-emit-remove
+   callbacks always; the slice form at every window >= 1 *)
+Theorem C02_backends_agree_when_window_fits :
+  forall (T St O : Type) (b1 b2 : backend) (o1 o2 : bool) (w : nat) (f : St -> option T * T -> St * O)
+         (g : St -> option nat * nat * T -> St * O) (s0 : St) (xs : list T),
+    w <= length xs \/ xs = [] ->
+    rolling_apply_on b1 o1 w f s0 xs = rolling_apply_on b2 o2 w f s0 xs /\
+    rolling_apply_idx_on b1 o1 w g s0 xs = rolling_apply_idx_on b2 o2 w g s0 xs.
+Proof.
+  intros; split; [apply rolling_apply_on_agree_fit | apply rolling_apply_idx_on_agree_fit]; assumption.
+Qed.
+
+Theorem C02_backends_agree_add_emit_remove :
+  forall (T St O : Type) (pre : St -> T -> St) (emit : St -> O) (post : St -> option T -> St)
+         (prei : St -> nat -> T -> St) (posti : St -> option nat -> St)
+         (b1 b2 : backend) (o1 o2 : bool) (w : nat) (s0 : St) (xs : list T),
+    rolling_apply_on b1 o1 w (aer pre emit post) s0 xs = rolling_apply_on b2 o2 w (aer pre emit post) s0 xs /\
+    rolling_apply_idx_on b1 o1 w (aer_idx prei emit posti) s0 xs
+    = rolling_apply_idx_on b2 o2 w (aer_idx prei emit posti) s0 xs.
+Proof.
+  intros; split; [apply rolling_apply_on_agree_aer | apply rolling_apply_idx_on_agree_aer].
+Qed.
+
+Theorem C02_backends_agree_two_series_add_emit_remove :
+  forall (T1 T2 St O : Type) (pre : St -> T1 * T2 -> St) (emit : St -> O) (post : St -> option (T1 * T2) -> St)
+         (prei : St -> nat -> T1 * T2 -> St) (posti : St -> option nat -> St)
+         (b1 b2 : backend) (o1 o2 : bool) (w : nat) (s0 : St) (xs : list T1) (ys : list T2),
+    length xs <= length ys ->
+    rolling2_apply_on b1 o1 w (aer pre emit post) s0 xs ys = rolling2_apply_on b2 o2 w (aer pre emit post) s0 xs ys /\
+    rolling2_apply_idx_on b1 o1 w (aer_idx prei emit posti) s0 xs ys
+    = rolling2_apply_idx_on b2 o2 w (aer_idx prei emit posti) s0 xs ys.
+Proof.
+  intros; split; [apply rolling2_apply_on_agree_aer | apply rolling2_apply_idx_on_agree_aer]; assumption.
+Qed.
+
+Theorem C02_backends_agree_slice_form :
+  forall (T St O : Type) (b1 b2 : backend) (o1 o2 : bool) (w : nat) (f : St -> list T -> St * O) (s0 : St) (xs : list T),
+    1 <= w -> rolling_custom_on b1 o1 w f s0 xs = rolling_custom_on b2 o2 w f s0 xs.
+Proof. intros; apply rolling_custom_on_agree; assumption. Qed.
+
+(* window 0 is the one place where the slice form depends on the backend *)
+Theorem C02_backend_slice_form_window0 :
+  forall (T St O : Type) (b : backend) (out : bool) (f : St -> list T -> St * O) (s0 : St) (xs : list T),
+    rolling_custom_on b out 0 f s0 xs =
+    if fast b then (match xs with [] => Done [] | _ => Panicked AssertFail end) else Panicked Underflow.
+Proof. exact @rolling_custom_on_window0. Qed.
+
+(* output placement per entry point: either the window assertion, or an output as long as the input whose
+   slot i holds the callback's result on the i-th argument (which carries x_i) in the state after the first i *)
+Theorem C02_backend_output_placement :
+  forall (T St O : Type) (b : backend) (out : bool) (w : nat) (f : St -> option T * T -> St * O) (s0 : St) (xs : list T),
+    (bad_window w xs = true /\ rolling_apply_on b out w f s0 xs = Panicked AssertFail) \/
+    (bad_window w xs = false /\ exists l args, rolling_apply_on b out w f s0 xs = Done l /\
+       length args = length xs /\ length l = length xs /\
+       (forall i v, nth_error xs i = Some v -> exists r, nth_error args i = Some (r, v)) /\
+       (forall i a, nth_error args i = Some a ->
+          nth_error l i = Some (snd (f (state_after f s0 (firstn i args)) a)))).
+Proof. exact @rolling_apply_on_shape. Qed.
+
+(* (A11) the lazy iterator (view.rs:310): `window - 1` when it is built; pulling k items runs the callback on
+         the first k windows in order and on nothing else; draining it is the returned slice form *)
+Theorem C02_lazy_iterator :
+  forall (T St O : Type) (k w : nat) (f : St -> list T -> St * O) (s0 : St) (xs : list T),
+    rolling_custom_iter_take k w f s0 xs =
+    if w =? 0 then Panicked Underflow else Done (run f s0 (firstn k (windows w xs))).
+Proof. exact @rolling_custom_iter_take_total. Qed.
+
+Theorem C02_lazy_iterator_prefix :
+  forall (T St O : Type) (k w : nat) (f : St -> list T -> St * O) (s0 : St) (xs : list T),
+    1 <= w ->
+    rolling_custom_iter_take k w f s0 xs = Done (firstn k (run f s0 (windows w xs))) /\
+    length (firstn k (run f s0 (windows w xs))) = Nat.min k (length xs).
+Proof. intros; apply rolling_custom_iter_take_prefix; assumption. Qed.
+
+Theorem C02_lazy_iterator_drained :
+  forall (T St O : Type) (k w : nat) (f : St -> list T -> St * O) (s0 : St) (xs : list T),
+    length xs <= k -> rolling_custom_iter_take k w f s0 xs = rolling_custom_default w f s0 xs.
+Proof. intros; apply rolling_custom_iter_take_all; assumption. Qed.
+
+(* non-vacuity of the (YA) implications *)
+Example C02_example_audit :
+  let f := fun (s : nat) (a : option nat * nat) => (s + 1, (s, a)) in
+  let g := fun (s : nat) (a : option nat * nat * nat) => (s + 1, (s, a)) in
+  let h := fun (s : nat) (l : list nat) => (s + 1, (s, l)) in
+  nth_error (run (logged f) (0, []) [(None, 7); (Some 7, 8)]) 1
+    = Some ((1, (Some 7, 8)), [(None, 7); (Some 7, 8)])
+  /\ win 2 2 [5; 6; 7; 8] = [6; 7] /\ Nat.min 2 (S 2) = 2
+  /\ removed 2 (combine [1; 2; 3] [4; 5; 6]) 2 = Some (2, 5)
+  /\ (removed_to 5 [7; 8] 1 = Some 7 /\ removed 5 [7; 8] 1 = None)
+  /\ rolling_apply_to 2 f 0 [7; 8; 9] = rolling_apply_default 2 f 0 [7; 8; 9]
+  /\ rolling_apply_idx_to 5 (aer_idx (fun s e v => s + e + v) (fun s => s) (fun s st => s)) 0 [7; 8]
+     = rolling_apply_idx_default 5 (aer_idx (fun s e v => s + e + v) (fun s => s) (fun s st => s)) 0 [7; 8]
+  /\ rolling_apply_to 1 f 0 [7; 8] = Done [(0, (Some 7, 7)); (1, (Some 8, 8))]
+  /\ rolling_apply_idx_to 5 g 0 [7; 8] = Done [(0, (None, 0, 7)); (1, (Some 0, 1, 8))]
+  /\ rolling_apply_idx_default 5 g 0 [7; 8] = Done [(0, (None, 0, 7)); (1, (None, 1, 8))]
+  /\ rolling_custom_to 5 h 0 [7; 8] = Done [(0, [7]); (1, [7; 8])]
+  /\ rolling_apply_on (BArc BDeque) false 5 f 0 [7; 8] = Done [(0, (None, 7)); (1, (None, 8))]
+  /\ rolling_apply_on (BArc BDeque) true 5 f 0 [7; 8] = Done [(0, (None, 7)); (1, (Some 7, 8))]
+  /\ rolling_apply_on BNdView false 5 f 0 [7; 8] = Done [(0, (None, 7)); (1, (Some 7, 8))]
+  /\ rolling_custom_on BVec false 0 h 0 [7] = Panicked AssertFail
+  /\ rolling_custom_on BDeque false 0 h 0 [7] = Panicked Underflow
+  /\ rolling_custom_on BVec false 0 h 0 [] = Done []
+  /\ rolling_custom_on BDeque true 0 h 0 [] = Panicked Underflow
+  /\ rolling2_apply_on BDeque false 1 (fun (s : nat) a => (s, a)) 0 [7; 8] [1] = Done [(Some (7, 1), (7, 1))]
+  /\ rolling2_apply_on BVec false 1 (fun (s : nat) (a : option (nat * nat) * (nat * nat)) => (s, a)) 0 [7; 8] [1]
+     = Panicked AssertFail
+  /\ rolling_custom_iter_take 2 2 h 0 [7; 8; 9] = Done [(0, [7]); (1, [7; 8])]
+  /\ rolling_custom_iter_take 0 0 h 0 [7] = Panicked Underflow
+  /\ rolling_custom_iter_take 9 2 h 0 [7; 8; 9] = rolling_custom_default 2 h 0 [7; 8; 9].
+Proof. vm_compute. repeat split. Qed.
+
 Print Assumptions C02_once_in_order_returned.
 Print Assumptions C02_once_in_order_buffer.
 Print Assumptions C02_once_in_order_idx_returned.
@@ -309,3 +631,34 @@ Print Assumptions C02_two_series_check_buffer.
 Print Assumptions C02_two_series_bodies_agree.
 Print Assumptions C02_two_series_idx_bodies_agree.
 Print Assumptions C02_two_series_shorter_second.
+Print Assumptions C02_call_trace.
+Print Assumptions C02_call_trace_results_unchanged.
+Print Assumptions C02_slice_positions.
+Print Assumptions C02_removed_pair.
+Print Assumptions C02_bodies_differ_exactly_at.
+Print Assumptions C02_bodies_differ_observably.
+Print Assumptions C02_bodies_equal_when_window_fits.
+Print Assumptions C02_slice_bodies_equal.
+Print Assumptions C02_idx_bodies_agree_every_window.
+Print Assumptions C02_two_series_idx_bodies_agree_every_window.
+Print Assumptions C02_window_one.
+Print Assumptions C02_empty_series.
+Print Assumptions C02_window_longer_remove_form.
+Print Assumptions C02_window_longer_index_form.
+Print Assumptions C02_window_longer_slice_form.
+Print Assumptions C02_backend_remove_form.
+Print Assumptions C02_backend_index_form.
+Print Assumptions C02_backend_slice_form.
+Print Assumptions C02_backend_two_series_remove_form.
+Print Assumptions C02_backend_two_series_index_form.
+Print Assumptions C02_backend_two_series_slice_form.
+Print Assumptions C02_backend_arc_and_fast_path.
+Print Assumptions C02_backends_agree_when_window_fits.
+Print Assumptions C02_backends_agree_add_emit_remove.
+Print Assumptions C02_backends_agree_two_series_add_emit_remove.
+Print Assumptions C02_backends_agree_slice_form.
+Print Assumptions C02_backend_slice_form_window0.
+Print Assumptions C02_backend_output_placement.
+Print Assumptions C02_lazy_iterator.
+Print Assumptions C02_lazy_iterator_prefix.
+Print Assumptions C02_lazy_iterator_drained.
